@@ -89,7 +89,8 @@ def run(ctx):
         if mode != "chroot":
             lines = [l for l in lines if T.plain_ok(l)]
         # ------------------------------------------------------------ 1. no failing allocation: C balance + ledger = C
-        cout = common.run_lines_parallel([drvm], lines)
+        cout_rq = common.run_lines_parallel([drvm], lines)
+        cout = [T.RQ_RE.sub("", c) for c in cout_rq]
         mout = common.run_lines_parallel([ctx.model], ["rdrmem" + l[3:] for l in lines])
         nontriv = 0
         for l, c, m in zip(lines, cout, mout):
@@ -128,7 +129,6 @@ def run(ctx):
             for k in range(1, int(ca.group(1)) + 1):
                 inj.append(" ".join(t[:3] + [str(k)] + t[4:]))
         iout = common.run_lines_parallel([drvm], inj)
-        base_of = dict(cands)
         silent = []
         reached = 0
         for l, c in zip(inj, iout):
@@ -143,25 +143,25 @@ def run(ctx):
                              "sig": "failinj-leak"})
             elif ca.group(4) != "0":
                 reached += 1
-                # "the affected call reports failure or end-of-archive": the first call whose result differs from the
-                # fault-free run must return a failure value
-                base = base_of[" ".join(l.split()[:3] + ["0"] + l.split()[4:])]
-                pb, pc = base.split("|", 1)[0].split(" ; "), c.split("|", 1)[0].split(" ; ")
-                ops = l.split()[5].split(",") if l.split()[5] != "-" else []
+                # "the affected call reports failure or end-of-archive": the call during which the failing request was
+                # made (rq= after each call counts the requests so far) must return a failure value
                 if c.startswith("ERR stream") or c.startswith("ERR reader"):
                     continue          # the constructor returned NULL: reported
-                for op, rb, rc_ in zip(ops, pb, pc):
-                    rb, rc_ = LB_RE.sub("", rb), LB_RE.sub("", rc_)
-                    if rb != rc_:
-                        v = rc_.split(" ev=")[0]
+                k = int(l.split()[3])
+                ops = l.split()[5].split(",") if l.split()[5] != "-" else []
+                pc = c.split("|", 1)[0].split(" ; ")
+                for op, r in zip(ops, pc):
+                    mrq = re.search(r" rq=(\d+)", r)
+                    if mrq and int(mrq.group(1)) >= k:
+                        v = T.RQ_RE.sub("", LB_RE.sub("", r)).split(" ev=")[0]
                         # (end-of-archive for next_file = NULL, or the entries the reader re-presents once the archive
                         # proper has ended: fake directories, deferred symlinks)
                         okv = v.startswith("n:NULL") or (v.startswith("n:H") and v.endswith(" fake=1")) or v.startswith("r=0:") \
                             or v in ("c=0", "cm=0", "x=0", "xm=0", "xf=0")
                         if not okv:
                             silent.append({"property": PID, "kind": "allocation-failure-not-reported", "case": l,
-                                           "failing_request": int(l.split()[3]), "op": op, "fault_free_result": rb[:400],
-                                           "result_with_failure": rc_[:400], "sig": "failinj-silent:" + op[0]})
+                                           "failing_request": k, "op": op, "result_with_failure": v[:400],
+                                           "sig": "failinj-silent:" + op[0]})
                         break
         silent.sort(key=lambda v: len(v["case"]))
         dist["failinj:not-reported"] = len(silent)
